@@ -251,6 +251,13 @@ _SWEEPS = {
             ("c18-trait", "make_credential", "request / store / user-validation variations", "trait call = direct call, same store effect"),
             ("c18-trait", "get_assertion", "request / store / user-validation variations (a call that does not return is a failure)", "trait call = direct call, same store effect")],
 }
+for _pid, _what in (("C01", "the effective RP ID is the one the credential is stored under and the store is asked under"),
+                    ("C02", "client data (type, challenge, origin), both authenticator-data copies identical, SHA-256 of the effective RP ID, attested credential id = raw id = base64url id, exactly one credential stored"),
+                    ("C03", "the signature verifies (p256, independently) under the registered public key over authenticator data || SHA-256(client data JSON); client data; RP ID hash, no attested data; returned id / user handle; credential-not-found when nothing is eligible"),
+                    ("C04", "userVerification maps to the verification asked of the user; an authenticator that cannot verify refuses preferred / required"),
+                    ("C05", "the store is asked for exactly the ids the request names; an exclude list naming the credential refuses the registration"),
+                    ("C11", "residentKey / requireResidentKey mapping, credProps, user handle returned exactly when stored")):
+    _SWEEPS.setdefault(_pid, []).append(("client-ceremonies", _pid, "192 registrations (2 store capabilities x 4 residentKey x requireResidentKey x 3 userVerification x rp.id given or not x credProps) through the real Client, each followed by an excluded registration and 6 authentications with different allow lists; only what this property says is looked at", _what))
 for _pid, _l in _SWEEPS.items():
     PROPS[_pid].setdefault("enumerations", [])
     for (_e, _a, _b, _t) in _l:
